@@ -17,7 +17,11 @@ def gen_program(rng, nops):
         elif r < 0.24 and handles:
             nh += 1; ops.append('cl %d %d' % (rng.choice(handles), nh)); handles.append(nh)
         elif r < 0.36 and handles:
-            h = rng.choice(handles); handles.remove(h); ops.append('%s %d %d' % ('drp' if rng.random() < 0.2 else 'dr', t, h))
+            if len(handles) >= 2 and rng.random() < 0.25:
+                # one handle overwritten with a clone of another (`clone_from`): the old span loses a handle, the other gains one
+                a, b = rng.sample(handles, 2); handles.remove(a); nh += 1; handles.append(nh); ops.append('cf %d %d %d %d' % (t, a, b, nh))
+            else:
+                h = rng.choice(handles); handles.remove(h); ops.append('%s %d %d' % ('drp' if rng.random() < 0.2 else 'dr', t, h))
         elif r < 0.50 and handles:
             h = rng.choice(handles); handles.remove(h); ng += 1; guards[ng] = t; ops.append('en %d %d %d' % (t, h, ng))
         elif r < 0.58 and guards:
@@ -66,6 +70,7 @@ import re
 def model_case(case):
     """`ii t f k` (into_inner of a wrapper whose inner future owns handle k, the inner then dropped) = `ii t f ; dr t k`"""
     case = re.sub(r'drp (\d+) (\d+)', r'dr \1 \2', case)      # a handle dropped by unwinding is a dropped handle
+    case = re.sub(r'cf (\d+) (\d+) (\d+) (\d+)', r'cl \3 \4 ; dr \1 \2', case)   # clone_from = a clone of the source, then the old handle dropped
     return re.sub(r'ii (\d+) (\d+) (\d+)', r'ii \1 \2 ; dr \1 \3', case)
 
 def gen(rng, tier):
